@@ -2,6 +2,7 @@ import RscelModel.Driver.Wire
 import RscelModel.Model.Conv
 import RscelModel.Model.WF
 import RscelModel.Driver.AstJson
+import RscelModel.Driver.Spans
 open Rscel
 
 def handle (line : String) : String :=
@@ -50,6 +51,19 @@ def handle (line : String) : String :=
         | .ok a => pure (Wire.showOut (execProg (stdBuiltins 0) env (compileProgram (stdBuiltins 0) a)))) with
       | some r => r
       | none => "bad-request"
+    else if cmd == "spantree" || cmd == "parseloc" then
+      let src := match args with | [h] => Wire.strOfHex h | [] => some [] | _ => none
+      match src with
+      | some src => if cmd == "spantree" then Wire.spanTreeAnswer src else Wire.parseLocAnswer src
+      | none => "bad-request"
+    else if cmd == "spancheck" then
+      -- spancheck <hexsrc|-> <tree in prefix form>: the verified checker on a span tree
+      match args with
+      | h :: rest =>
+        (match (if h == "-" then some [] else Wire.strOfHex h), Wire.readTree 4096 rest with
+         | some src, some (t, []) => Wire.spanCheckAnswer src t
+         | _, _ => "bad-request")
+      | [] => "bad-request"
     else if cmd == "wf" then
       match Wire.parseVal args with
       | some (.code c, _) => wfDiag c
